@@ -18,6 +18,10 @@ def main (_args : List String) : IO Unit := do
     let toks := words l
     match toks with
     | [] => pure ()
+    | "shape" :: id :: _ =>
+      stdout.putStrLn s!"item {id}"
+      for o in runShape l do stdout.putStrLn o
+      stdout.putStrLn "end"
     | "scenario" :: rest =>
       name := " ".intercalate rest
       cur := #[]
